@@ -68,6 +68,7 @@ type Opts struct {
 	MaxSvcs     int
 	MaxRoutes   int
 	Adversarial bool // free-form paths, odd bytes
+	Trace       bool // run the real side with trace logging enabled
 }
 
 func (o Opts) res() []rePool {
@@ -292,11 +293,14 @@ func instantiate(r *rng.R, o Opts, t Tok) []string {
 		return out
 	}
 	if t.Verb != "" {
-		switch {
-		case !miss || r.Chance(1, 2):
+		switch k := r.Intn(8); {
+		case k < 5:
 			seg += ":" + t.Verb
-		case r.Chance(1, 2):
-			seg += ":" + r.Pick([]string{"RUN", "runx", "sto", "", "x:" + t.Verb + "x"})
+		case k < 6:
+			// no verb at all
+		default:
+			// near misses of the verb: other case, longer, shorter, and text that merely ENDS in the verb's letters
+			seg += r.Pick([]string{":RUN", ":runx", ":sto", ":", ":x:" + t.Verb + "x", ":re" + t.Verb, t.Verb, ":x" + t.Verb, "-" + t.Verb})
 		}
 	}
 	return []string{seg}
